@@ -446,6 +446,54 @@ def ob_function_roundtrip(gridname, jit):
     return held("%d callable flavours, worst %.1e; integrate/l2_norm/vertices/centers/RWG ok" % (len(flavours) + 1, worst))
 
 
+def replay_projection_other_space():
+    """Native: projections of a grid function onto a DIFFERENT space of the same kind and size (overlapping or disjoint supports with equally many elements) are the exact
+    L2 products with that space's basis (the mixed mass matrix), not those with its own basis; project_to_space agrees with solving the target space's mass system."""
+    import bempp_cl.api as api
+    from bempp_cl.api.operators.boundary import sparse
+
+    warnings.simplefilter("ignore")
+    g = SG.make_grid(*SG.octa())
+    par = Z.params(4, 4)
+    rng = np.random.RandomState(8)
+    failing, worst = [], 0.0
+    for kind, deg, sa, sb in (("DP", 1, [0, 1, 2, 3], [2, 3, 4, 5]), ("DP", 0, [0, 1, 2, 3], [4, 5, 6, 7]), ("P", 1, [0, 1, 2, 3], [2, 3, 4, 5]), ("RWG", 0, [0, 1, 2, 3], [4, 5, 6, 7])):
+        kw = {} if kind == "DP" else {"include_boundary_dofs": True}
+        A = api.function_space(g, kind, deg, support_elements=sa, **kw)
+        B = api.function_space(g, kind, deg, support_elements=sb, **kw)
+        c = rng.randn(A.global_dof_count) + 1j * rng.randn(A.global_dof_count)
+        f = api.GridFunction(A, coefficients=c, parameters=par)
+        # mixed mass matrix by direct quadrature through the basis evaluators (independent of the cached mass matrices)
+        from bempp_cl.api.integration.triangle_gauss import rule
+
+        q, w = rule(4)
+        M = np.zeros((B.global_dof_count, A.global_dof_count), dtype=complex)
+        for E in range(g.number_of_elements):
+            if not (A.support[E] and B.support[E]):
+                continue
+            va, vb = A.evaluate(E, q), B.evaluate(E, q)
+            for i in range(vb.shape[1]):
+                for j in range(va.shape[1]):
+                    M[B.local2global[E, i], A.local2global[E, j]] += g.integration_elements[E] * np.sum(w * np.sum(np.conj(vb[:, i, :]) * va[:, j, :], axis=0))
+        want = M @ c
+        got = np.asarray(f.projections(B))
+        scale = max(1e-300, np.abs(want).max(), np.abs(c).max() * 1e-3)
+        err = float(np.abs(got - want).max() / scale)
+        worst = max(worst, err)
+        if not err < 1e-12:
+            failing.append("%s%d on elements %s projected onto the same kind on elements %s: deviation %.2e from the mixed mass matrix times the coefficients" % (kind, deg, sa, sb, err))
+    return {"violates": bool(failing), "failing": failing, "worst": worst}
+
+
+def ob_projection_other_space():
+    """bounded: see replay_projection_other_space"""
+    r = replay_projection_other_space()
+    if r["violates"]:
+        return violated("projections onto another space of the same kind and size are not the exact L2 products: %s" % r["failing"][:2], witness={"failing": r["failing"]},
+                        signature="projection/other-space", replay={"callable": "checks.c13:replay_projection_other_space", "kwargs": {}, "confirmed": True, "result": r})
+    return held("DP1 / DP0 / P1 / RWG on two supports of four elements each (overlapping and disjoint): worst %.1e" % r["worst"])
+
+
 def replay_gridfunction_numeric(gridname):
     """Native (floats): evaluate_on_vertices, evaluate_on_element_centers, integrate and l2_norm of grid functions with real and complex (dof-wise varying phase)
     coefficients on whole-grid and (non-leading) segment spaces against direct evaluation / quadrature of the represented function through space.evaluate:
@@ -581,6 +629,7 @@ def main():
         run.add("exactness.orders1-20[%s]" % g, "bounded", ob_exactness, g)
     run.add("callables+roundtrip[octa, JIT off]", "bounded", ob_function_roundtrip, "octa", False)
     run.add("gridfunction-helpers.numeric[octa, whole grid + segments, real + complex]", "bounded", ob_gridfunction_numeric, "octa")
+    run.add("GridFunction.projections(other space of the same kind and size)", "bounded", ob_projection_other_space)
     run.bound("symbolic contracts: tetrahedron / 2x2 screen, 2 generic quadrature points")
     run.bound("exactness: zoo grids, all 20 orders; callable flavours with NUMBA_DISABLE_JIT=1 (jit/objmode wrappers are identity then); thorough tier runs them with JIT on")
     run.assume("scipy coo_matrix sums duplicates; sparse products are matrix products")
